@@ -5,7 +5,7 @@
    from a reader) is a Section-style parameter: any state machine (wants, step, finish) asking for >= 1 byte. *)
 From RG Require Import Base.Bytes Model.CliTypes Model.CliExpected Gen.DecisionsCli Model.Process Model.MainRun
   Spec.ExitSpec Proofs.DecisionsProofs Proofs.ProcessProofs Proofs.MainRunProofs
-  Model.PreZipFlags Spec.PreZipSpec Proofs.PreZipProofs.
+  Model.PreZipFlags Model.PreZipGen Spec.PreZipSpec Proofs.PreZipProofs.
 Local Open Scope bool_scope.
 
 (* 1. CommandReader::close reports an error exactly when this is the first close, the child did not succeed, and
@@ -164,6 +164,14 @@ Theorem flag_override_law : forall l : list pz_event,
 Proof. exact final_state_spec. Qed.
 Print Assumptions flag_override_law.
 
+(* the same law for the update rules REGENERATED from defs.rs on every run (pre_update_value, pre_update_switch,
+   zip_update of Gen/DecisionsCli.v): a change of <Pre as Flag>::update / <SearchZip as Flag>::update that breaks the
+   documented law breaks this proof *)
+Theorem flag_override_law_generated : forall l : list pz_event,
+  gen_final_state l = {| pz_pre := spec_pre l; pz_zip := spec_zip l |}.
+Proof. exact gen_final_state_spec. Qed.
+Print Assumptions flag_override_law_generated.
+
 Theorem pre_and_zip_exclusive : forall l p,
   pz_pre (final_state l) = Some p -> pz_zip (final_state l) = false.
 Proof. exact pre_zip_exclusive_proof. Qed.
@@ -232,3 +240,5 @@ Check cancelling_pre_keeps_zip : forall l,
   pz_zip (final_state (l ++ [EPre []])) = pz_zip (final_state l) /\
   pz_zip (final_state (l ++ [ENoPre])) = pz_zip (final_state l) /\
   final_state (l ++ [EPre []]) = final_state (l ++ [ENoPre]).
+Check flag_override_law_generated : forall l : list pz_event,
+  gen_final_state l = {| pz_pre := spec_pre l; pz_zip := spec_zip l |}.
